@@ -10,6 +10,7 @@ Time is a counter of abstract ticks: the timing clauses are statements about the
 -/
 import GeckoModel.Proofs.ConfigLemmas
 import GeckoModel.Model.Coop
+import GeckoModel.Proofs.Coop
 import GeckoModel.Generated.Skeletons
 
 namespace GeckoModel.C17
@@ -250,5 +251,29 @@ theorem device_change_reaches_the_facade_whatever_happened_before :
 
 /-- non-vacuity: a re-entrancy mark would be seen -/
 example : GeckoModel.Coop.selfStateWritten (.seq (.ev (.act ⟨.set, "self._notifying"⟩)) (.ev (.act ⟨.call, "observer"⟩))) = ["self._notifying"] := by decide +kernel
+
+/-! ### every sleeper waits on the one current future -/
+
+/-- the last thing the skeleton does is its only await -/
+def endsInItsOnlyAwait (n : String) : GeckoModel.Coop.Sk → Bool
+  | .seq pre (.ev (.aw m)) => m == n && GeckoModel.Coop.suspensions pre == 0
+  | _ => false
+
+/-- **nobody is left waiting on a stale future** (over the regenerated skeleton of `config_sleep`): the shared future is replaced
+only on the path on which it was found absent or already resolved (so a future that sleepers are still waiting on is never
+replaced - whoever sleeps holds the current one, and `set_config_mode` resolving the current one wakes them all), and the wait on
+it - with the caller's delay as its timeout - is the LAST thing `config_sleep` does: nothing is re-armed on the way out -/
+theorem sleepers_share_the_current_future :
+    GeckoModel.Coop.actions .set GeckoModel.Generated.Skeletons.sk_config__config_sleep = ["ConfigChange"] ∧
+    GeckoModel.Coop.onlyUnderBothGuards (fun _ => false) (GeckoModel.Coop.isBranch true "ConfigChange is None or ConfigChange.done()")
+      (GeckoModel.Coop.isBranch true "ConfigChange is None or ConfigChange.done()")
+      (fun e => match e with | .act a => a.kind == .set && a.name == "ConfigChange" | .aw _ => false)
+      GeckoModel.Generated.Skeletons.sk_config__config_sleep = true ∧
+    endsInItsOnlyAwait "asyncio.wait" GeckoModel.Generated.Skeletons.sk_config__config_sleep = true := by decide +kernel
+
+/-- non-vacuity: re-arming the future after having been woken is seen (each woken sleeper would then replace the future the
+others have just gone back to sleep on) -/
+example : endsInItsOnlyAwait "asyncio.wait"
+    (.seq (.ev (.aw "asyncio.wait_for")) (.alt (.ev (.act ⟨.set, "ConfigChange"⟩)) .skip)) = false := by decide +kernel
 
 end GeckoModel.C17
